@@ -172,6 +172,11 @@ class Interp(object):
         if name not in self.funcs:
             raise AnalysisBroken('SHP: %s: call of %s is not modelled' % (where, name))
         u, fn = self.funcs[name]
+        if len(args) < len(fn.params) and name in getattr(u, 'folded_args', {}) and self.depth == 0:
+            # an entry point that has become a wrapper handing constants to the function now standing under its name
+            extra = getattr(u, 'folded_args')[name]
+            if len(args) + len(extra) == len(fn.params):
+                args = list(args) + [const_val(x) for x in extra]
         self.depth += 1
         if self.depth > 12:
             raise AnalysisBroken('SHP: call depth exceeded in %s' % name)
@@ -1029,6 +1034,13 @@ def shp5(units, R, fname='cJSON_Compare'):
                     return False
             return True
         return covered(x[1], y[1]) and covered(y[1], x[1])
+    def folded_clash(t):
+        if t[0] == 64:
+            ks = [k.lower() for (k, _v) in t[1]]
+            return len(set(ks)) != len(ks) or any(folded_clash(v) for (_k, v) in t[1])
+        if t[0] == 32:
+            return any(folded_clash(v) for v in t[1])
+        return False
     small = [(8, 1.0), (16, b'x'), (2, None)]
     deep = _max_len() > 6              # thorough tier: arrays of three, objects of three members
     trees = list(scal)
@@ -1051,6 +1063,10 @@ def shp5(units, R, fname='cJSON_Compare'):
             if x[0] in (32, 64) and y[0] in (32, 64) and x[0] == y[0] and len(x[1]) + len(y[1]) > (6 if deep else 4):
                 continue
             for cs in (1, 0):
+                if not cs and (folded_clash(x) or folded_clash(y)):
+                    # the property speaks of objects whose keys are distinct - after case folding when compared without regard to
+                    # case; what the lookups do with keys that fall together is C06's business (SHP3)
+                    continue
                 n_cases += 1
                 heap = Heap()
                 a, b = build(heap, x, 'a'), build(heap, y, 'b')
